@@ -80,6 +80,11 @@ def run_case(acc, rnd, tier, case):
         nd.i = i
         nd.ch = gen_chart(rnd, mode=rnd.choice((None, 'orth', 'queue')), p_send=0.7, p_state_send=0.35, p_notify=0.3,
                           p_final=0.4, p_eventless=0.15, **T['gen'])
+        # notify() names that look like pieces of the documented meta-event names: they are user meta-events all the same
+        for lst in [t['sends'] for t in nd.ch['transitions']] + [x for s_ in nd.ch['states'].values() for x in (s_['sends_entry'], s_['sends_exit'])]:
+            for snd_ in lst:
+                if snd_['kind'] == 'notify' and rnd.random() < 0.5:
+                    snd_['name'] = rnd.choice(('sent', 'event', 'e', 'event sent!', 'step'))
         nd.sc, nd.tmap = build.build_api(nd.ch, coder=RefCoder())
         nd.pr = Probes(val=make_val(rnd.random(), rnd.choice((0.6, 0.9, 1.0))), first_uid=100000 * (i + 1))
         nd.ref = object()       # a parameter that only compares equal to itself (e.g. a reply mailbox)
@@ -311,6 +316,13 @@ def step_and_check(acc, rnd, nd, nodes, dlog, history, wit):
     except Exception as e:  # noqa  (non-determinism of a generated chart, a planned failure of an action)
         # the interpreter is used further (a caller may catch the error and go on): whatever it does then, what it delivers
         # must be what the MacroSteps it returns list as sent
+        planned = 'planned failure' in str(e)
+        if not planned and not nd.wounded and type(e).__name__ not in ('NonDeterminismError', 'ConflictingTransitionsError'):
+            # neither a conflict of the generated chart nor one of the failures this workload plans, on an interpreter no call of
+            # which had raised before: something in the delivery machinery raised (the interpreter is not used any further)
+            acc.violation('C15:unexpected-exception', 'interpreter %d: execute_once raised %s: %s' % (nd.i, type(e).__name__,
+                                                                                                     str(e)[:300].replace('\n', ' ')), wit)
+            return False
         nd.wounded += 1
         if nd.wounded > 4 or 'planned failure of receiver' in str(e):
             nd.dead = True
